@@ -94,7 +94,7 @@ func (c *unlambdaChecker) VisitExpr(x ast.Expr) {
 		}
 
 		for _, id := range params.Names {
-			if !astequal.Expr(id, result.Args[n]) {
+			if n >= len(result.Args) || !astequal.Expr(id, result.Args[n]) {
 				return
 			}
 			n++
